@@ -7,6 +7,17 @@ static CLOCK_MS: AtomicU64 = AtomicU64::new(u64::MAX);
 thread_local! {
     static THREAD_CLOCK_MS: Cell<Option<u64>> = const { Cell::new(None) };
     static YIELD_HOOK: RefCell<Option<Box<dyn FnMut(&'static str)>>> = const { RefCell::new(None) };
+    // a ticking clock: successive readings of the calling thread (the last one repeats) and how many were taken
+    static THREAD_CLOCK_SCRIPT: RefCell<Option<(Vec<u64>, usize)>> = const { RefCell::new(None) };
+}
+/// Per-thread ticking clock: every clock read of the calling thread takes the next reading of `script`
+/// (the last one repeats). Takes precedence over the fixed overrides; `None` removes it.
+pub fn set_thread_clock_script(script: Option<Vec<u64>>) {
+    THREAD_CLOCK_SCRIPT.with(|c| *c.borrow_mut() = script.filter(|s| !s.is_empty()).map(|s| (s, 0)));
+}
+/// Number of clock reads the calling thread has taken from its ticking clock.
+pub fn thread_clock_reads() -> usize {
+    THREAD_CLOCK_SCRIPT.with(|c| c.borrow().as_ref().map_or(0, |(_, n)| *n))
 }
 /// Process-wide clock override (milliseconds since the Unix epoch); `None` restores the real clock.
 pub fn set_clock_ms(v: Option<u64>) {
@@ -17,6 +28,16 @@ pub fn set_thread_clock_ms(v: Option<u64>) {
     THREAD_CLOCK_MS.with(|c| c.set(v));
 }
 pub fn clock_ms() -> Option<u64> {
+    let ticking = THREAD_CLOCK_SCRIPT.with(|c| {
+        c.borrow_mut().as_mut().map(|(script, n)| {
+            let v = script[(*n).min(script.len() - 1)];
+            *n += 1;
+            v
+        })
+    });
+    if ticking.is_some() {
+        return ticking;
+    }
     if let Some(v) = THREAD_CLOCK_MS.with(|c| c.get()) {
         return Some(v);
     }
